@@ -1013,7 +1013,13 @@ class WormWheel(HelicalGear):
 
            :py:meth:`update_time_variables`
         """
-        return super().time_variables
+        time_variables = super().time_variables
+        if not self.bending_stress_is_computable:
+            time_variables.pop('bending stress', None)
+        elif 'tangential force' in time_variables:
+            time_variables.setdefault('bending stress', [])
+
+        return time_variables
 
     def update_time_variables(self) -> None:
         """It updates :py:attr:`time_variables` dictionary by appending the
